@@ -69,6 +69,8 @@ impl MultiUidCompactor {
         // Ensure output directory exists once for all UIDs
         std::fs::create_dir_all(&output_dir)
             .map_err(|e| CompactorError::ZoneWriter(e.to_string()))?;
+        #[cfg(feature = "verif-hooks")]
+        crate::verif_hooks::point("mc.out_dir_created", shared_output_segment_id as u64);
 
         if tracing::enabled!(tracing::Level::DEBUG) {
             debug!(
@@ -100,6 +102,8 @@ impl MultiUidCompactor {
                 .await
                 .map_err(|e| CompactorError::ZoneWriter(format!("UID {}: {}", uid_plan.uid, e)))?;
             results.insert(uid_plan.uid.clone(), result);
+            #[cfg(feature = "verif-hooks")]
+            crate::verif_hooks::point("mc.uid_written", uid_idx as u64);
         }
 
         if tracing::enabled!(tracing::Level::INFO) {
